@@ -35,6 +35,13 @@ func (m *MW) Handler() rux.HandlerFunc {
 	return func(c *rux.Context) {
 		rec := recOf(c)
 		rec.Ev("enter(%s)", m.ID)
+		if rec.CtxPtr == nil {
+			rec.CtxPtr = c
+		}
+		if rec.Extra != nil && rec.Extra["want_snapshot"] == true && rec.Extra["snapshot"] == nil {
+			// C10: the first instrumented handler of the request records how it finds the context
+			rec.Extra["snapshot"] = ctxSnapshot(c, rec)
+		}
 		if m.Pre != nil {
 			m.Pre(c, rec)
 		}
@@ -344,6 +351,7 @@ type progGen struct {
 	dynamic  bool // allow dynamic route paths
 	ctrl     bool // allow Controller registrations
 	maxMW    int  // max middleware per list
+	noGlobal bool // no top-level Use statements
 }
 
 func (g *progGen) mw(prefix string) *MW {
@@ -395,6 +403,9 @@ func (g *progGen) body(depth int, budget *int) []Stmt {
 		*budget--
 		switch x := g.r.IntN(10); {
 		case x < 2:
+			if g.noGlobal && depth == 0 {
+				continue
+			}
 			if ms := g.mws("g", g.maxMW); len(ms) > 0 {
 				out = append(out, UseStmt{ms})
 			}
@@ -460,7 +471,7 @@ func GenProgram(r *rand.Rand, g *progGen) *Program {
 		p.Body = append(p.Body, g.route(false))
 	}
 	// a late top-level Use (global middleware added after routes exist)
-	if chance(r, 1, 3) {
+	if !g.noGlobal && chance(r, 1, 3) {
 		if ms := g.mws("g", g.maxMW); len(ms) > 0 {
 			p.Body = append(p.Body, UseStmt{ms})
 		}
